@@ -7,17 +7,20 @@ def tu_check(tu):
     n = convert.analyse_narrowing(tu)
     b = convert.analyse_bytes(tu)
     c = changed.analyse_conv(tu)
-    f = n["findings"] + b["findings"] + [x for x in c["findings"] if x["rule"] == "CONV-BEFORE-MUT"]
+    from ..rules import keycheck
+    kc = keycheck.analyse_tu(tu)
+    f = n["findings"] + b["findings"] + [x for x in c["findings"] if x["rule"] == "CONV-BEFORE-MUT"] + kc["findings"]
     stats = dict(n["stats"])
     stats.update(b["stats"])
     stats.update(c["stats"])
+    stats["key_insert_sites"] = kc["stats"]["key_insert_sites"]
     return dict(findings=f, stats=stats, dtype=convert.dtype_row(tu))
 
 
 def run(tier="quick", seed=0, use_cache=True):
     res = engine.Result("C13")
     res.rules = ["NARROW-GUARD", "BYTES-GUARD", "CONV-BEFORE-MUT", "DTYPE-TABLE",
-                 "PY-TAINT", "PY-NATIVE-CALL"]
+                 "PY-TAINT", "PY-NATIVE-CALL", "KEY-CHECK-DOM"]
     res.explanation = (
         "Guard-dominates-store dataflow over every function of the 22 "
         "translation units that calls a CPython converter "
@@ -51,6 +54,8 @@ def run(tier="quick", seed=0, use_cache=True):
     res.floor("byte-array conversion sites (fs)", out["fs"]["stats"]["bytes_sites"], 10)
     res.floor("conversion sites with a status (II)", out["II"]["stats"]["conv_status_sites"], 12)
     res.floor("translation units", len(out), 22)
+    res.floor("key stores behind the comparability check (object-key units)", tot.get("key_insert_sites", 0), 5)
+    res.count("KEY-CHECK-DOM", tot.get("key_insert_sites", 0))
     res.count("NARROW-GUARD", tot["slot_stores"])
     res.count("BYTES-GUARD", tot["bytes_sites"])
     res.count("CONV-BEFORE-MUT", tot["conv_status_sites"])
